@@ -213,17 +213,37 @@ where
             Some(r) => r,
             None => return Ok(Some((cell_changed, clamped, done))),
         };
-        let probe = Probe::new(state.clone(), cfg.kt_start == 0.);
-        let model = probe.model.clone();
-        {
-            let mut m = model.lock().unwrap();
-            m.mode = crate::probe::Mode::Agnostic;
+        // A proposal that holds a non-finite parameter ends the run there: the stage is repeated with `steps` equal to
+        // that proposal's number (another valid configuration, same seed), so that what is judged is still the state
+        // a real run returns, while a run that is blind to NaN cannot spend minutes in degenerate cells first.
+        let exec = |cfg: &OptCfg, stop: bool| {
+            let mut probe = Probe::new(state.clone(), cfg.kt_start == 0.);
+            probe.stop_on_nonfinite = stop;
+            let model = probe.model.clone();
+            {
+                let mut m = model.lock().unwrap();
+                m.mode = crate::probe::Mode::Agnostic;
+            }
+            let cfg2 = cfg.clone();
+            let res = std::panic::catch_unwind(std::panic::AssertUnwindSafe(move || {
+                let out = cfg2.build().optimise_state(probe);
+                (serde_json::to_value(&out).ok(), out.score())
+            }));
+            (res, model)
+        };
+        let (mut res, mut model) = exec(cfg, true);
+        let mut cfg_used = cfg.clone();
+        if let Err(e) = &res {
+            if let Some(crate::probe::NonFiniteStop(n)) = e.downcast_ref::<crate::probe::NonFiniteStop>() {
+                rec.class("chain/cut-at-non-finite-proposal");
+                cfg_used.steps = *n;
+                cfg_used.inner = cfg_used.inner.min(*n).max(1);
+                let r = exec(&cfg_used, false);
+                res = r.0;
+                model = r.1;
+            }
         }
-        let cfg2 = cfg.clone();
-        let res = std::panic::catch_unwind(std::panic::AssertUnwindSafe(move || {
-            let out = cfg2.build().optimise_state(probe);
-            (serde_json::to_value(&out).ok(), out.score())
-        }));
+        let cfg = &cfg_used;
         let (v, score) = match res {
             Ok((Some(v), s)) => (v, s),
             Ok((None, _)) => return Err(format!("stage {}: the returned state does not serialise", k + 1)),
@@ -393,12 +413,28 @@ fn run_multi<S: State + Serialize + DeserializeOwned>(mut state: S, c: &MultiCha
     let mut moved = false;
     let mut done = 0;
     for (k, cfg) in c.stages.iter().enumerate() {
-        let cfg2 = cfg.clone();
-        let st = state.clone();
-        let res = std::panic::catch_unwind(std::panic::AssertUnwindSafe(move || {
-            let out = cfg2.build().optimise_state(st);
-            (serde_json::to_value(&out).ok(), out.score())
-        }));
+        // as in run_chain: a proposal with a non-finite parameter ends the run, which is repeated with that many steps
+        let exec = |cfg: &OptCfg, stop: bool| {
+            let mut st = Probe::new(state.clone(), cfg.kt_start == 0.);
+            st.stop_on_nonfinite = stop;
+            st.model.lock().unwrap().mode = crate::probe::Mode::Agnostic;
+            let cfg2 = cfg.clone();
+            std::panic::catch_unwind(std::panic::AssertUnwindSafe(move || {
+                let out = cfg2.build().optimise_state(st);
+                (serde_json::to_value(&out).ok(), out.score())
+            }))
+        };
+        let mut res = exec(cfg, true);
+        let mut cfg_used = cfg.clone();
+        if let Err(e) = &res {
+            if let Some(crate::probe::NonFiniteStop(n)) = e.downcast_ref::<crate::probe::NonFiniteStop>() {
+                rec.class("cut-at-non-finite-proposal");
+                cfg_used.steps = *n;
+                cfg_used.inner = cfg_used.inner.min(*n).max(1);
+                res = exec(&cfg_used, false);
+            }
+        }
+        let cfg = &cfg_used;
         rec.eval(cfg.proposals() + 1);
         let (v, score) = match res {
             Ok((Some(v), s)) => (v, s),
@@ -451,6 +487,70 @@ fn multi_oracle(c: &MultiChain, rec: &Rec, _: &Ctx) -> Result<(), String> {
         }
     }
     Ok(())
+}
+
+/// C20's use of the same chains (part real-chains): plain runs of the stages, judged only on "returns without
+/// panicking"; a stage that returns a state without a finite score ends the chain (that is this property's subject).
+pub fn chain_strat_for_c20(ctx: &Ctx) -> BoxedStrategy<ChainCase> {
+    chain_strat(ctx)
+}
+
+fn plain_chain<S: State + Serialize + DeserializeOwned>(mut state: S, c: &ChainCase) -> Result<Option<usize>, String> {
+    if !state.score().map(|s| s.is_finite()).unwrap_or(false) {
+        return Ok(None);
+    }
+    for (k, cfg) in c.stages.iter().enumerate() {
+        let cfg2 = cfg.clone();
+        let s = state.clone();
+        let res = std::panic::catch_unwind(std::panic::AssertUnwindSafe(move || serde_json::to_value(&cfg2.build().optimise_state(s)).ok()));
+        match res {
+            Ok(Some(v)) => match serde_json::from_value(v) {
+                Ok(st) => state = st,
+                Err(_) => return Ok(Some(k + 1)),
+            },
+            Ok(None) => return Ok(Some(k + 1)),
+            Err(e) => {
+                let msg = if let Some(s) = e.downcast_ref::<&str>() {
+                    s.to_string()
+                } else if let Some(s) = e.downcast_ref::<String>() {
+                    s.clone()
+                } else {
+                    "panic".to_string()
+                };
+                return Err(format!("stage {} of {} ({:?} in {}, config {:?}) panicked on a state with a finite score: {}", k + 1, c.stages.len(), c.shape, geom::GROUP_NAMES[c.group], cfg, msg));
+            }
+        }
+        if !state.score().map(|s| s.is_finite()).unwrap_or(false) {
+            return Ok(Some(k + 1));
+        }
+    }
+    Ok(Some(c.stages.len()))
+}
+
+/// Ok(None): start without a finite score (not a valid state); Ok(Some(n)): n stages returned; Err: a stage panicked
+pub fn run_chain_plain(c: &ChainCase) -> Result<Option<usize>, String> {
+    if !well_defined(&c.shape) {
+        return Ok(None);
+    }
+    let wg = statejson::wg(c.group);
+    macro_rules! start {
+        ($init:expr) => {{
+            let init = $init;
+            match c.start {
+                None => init,
+                Some((scale, ratio, angle, x, y, phi)) => {
+                    let p0 = statejson::params_of(&init).ok_or("params")?;
+                    let p = Params { length: p0.length * scale, ratio, angle: if is_oblique(c.group) { angle } else { p0.angle }, x, y, phi };
+                    statejson::with_params(&init, &p)?
+                }
+            }
+        }};
+    }
+    match c.kind {
+        Kind::HardLine => plain_chain(start!(packing::PackedState::from_group(statejson::line_shape(&c.shape).ok_or("shape")?, &wg).map_err(|e| e.to_string())?), c),
+        Kind::HardMol => plain_chain(start!(packing::PackedState::from_group(statejson::mol_shape(&c.shape).ok_or("shape")?, &wg).map_err(|e| e.to_string())?), c),
+        Kind::Lj => plain_chain(start!(packing::PotentialState::from_group(statejson::lj_shape(&c.shape).ok_or("shape")?, &wg).map_err(|e| e.to_string())?), c),
+    }
 }
 
 pub fn parts() -> Vec<PartDef> {
